@@ -20,6 +20,7 @@ mod namerc;
 mod names;
 mod parse;
 mod sb;
+mod rt;
 mod scalars;
 mod strs;
 mod util;
@@ -54,6 +55,9 @@ fn main() {
         "exec-replay" => exec::replay(rest),
         "schema-cases" => aschema::cases(rest),
         "doc-cases" => adoc::cases(rest),
+        "rt-replay" => rt::replay(rest),
+        "rt-record" => rt::record(rest),
+        "rt-typed" => rt::typed(rest),
         "async-replay" => asyncx::replay(rest),
         "exec-record" => exec::record(rest),
         "coerce-replay" => coerce::replay(rest),
